@@ -11,12 +11,15 @@ import (
 // C11 — cancelling a batch stops new items and never hangs or fakes success.
 
 func judgeC11(sc *BatchSc, x *batchExec, br batchRun, fail string) Verdict {
-	if fail != "" {
-		// includes "deadlock: all goroutines in bubble are blocked" = the run hangs
-		return bad("C11:hang-or-leak", "%s", fail)
+	if fail != "" && !goroutinesRemain(fail) {
+		// "deadlock: all goroutines in bubble are blocked" = the run hangs
+		return bad("C11:hang", "%s", fail)
 	}
 	if br.Panic != "" {
 		return bad("C11:panic", "%s", br.Panic)
+	}
+	if x != nil && x.unattributed > 0 {
+		return ok(false, "fallback-call-not-attributable")
 	}
 	cp := sc.Cancel
 	n := sc.n()
@@ -74,14 +77,9 @@ func judgeC11(sc *BatchSc, x *batchExec, br batchRun, fail string) Verdict {
 	if br.CtxErr == nil {
 		return bad("C11:harness", "context not cancelled")
 	}
-	if br.Err != nil {
-		if !errors.Is(br.Err, br.CtxErr) {
-			if sc.PostErr != 0 && x.postCalls == 1 {
-				// post's own failure is a legitimate, different error
-			} else {
-				return bad("C11:foreign-error", "run returned %q, which does not match %v", br.Err, br.CtxErr)
-			}
-		}
+	if br.Err != nil && x.postCalls == 0 && !errors.Is(br.Err, br.CtxErr) {
+		// neither branch of the contract: no post, and the error does not match the context's
+		return bad("C11:foreign-error", "run returned %q without calling post; it does not match %v", br.Err, br.CtxErr)
 	}
 	if br.Err == nil || x.postCalls > 0 {
 		if !sc.NoPost && x.postCalls != 1 {
@@ -163,7 +161,7 @@ func genC11(rt *rapid.T) BatchSc {
 	mode := rapid.SampledFrom([]int{0, 1, 2}).Draw(rt, "mode")
 	budget := rapid.IntRange(1, 3).Draw(rt, "budget")
 	wait := rapid.SampledFrom([]int{0, 0, 3600000, 20}).Draw(rt, "wait")
-	cp := CancelPoint{Flavor: rapid.SampledFrom([]string{"cancel", "cancel", "cause", "deadline"}).Draw(rt, "flavor")}
+	cp := CancelPoint{Flavor: rapid.SampledFrom([]string{"cancel", "cancel", "deadline"}).Draw(rt, "flavor")}
 	if rapid.IntRange(0, 9).Draw(rt, "before") == 0 {
 		cp.Before = true
 		if rapid.Bool().Draw(rt, "dl") {
@@ -212,7 +210,7 @@ func TestC11(t *testing.T) {
 								}
 								k++
 								sched := []int{(item + a) % 4, 1, 3, 2, 0, 1}
-								fl := []string{"cancel", "deadline", "cause"}[(item+a+n)%3]
+								fl := []string{"cancel", "deadline"}[(item+a+n)%2]
 								evalCase(r, "each-point", c11Case(n, c, mode, budget, wait, 0b10010010, CancelPoint{Item: item, Attempt: a, Flavor: fl}, sched), checkC11)
 							}
 						}
